@@ -333,6 +333,21 @@ def _r13_4(prog: Program, res: Result) -> None:
         same_input = all(p in argtexts for p in fn.posparams[:2])
         res.decide(same_input, "R13.4", fn.loc(loop), fn.fq, f"{name}: candidates", "all candidates of the same (pattern, source)" if same_input
                    else "the candidates are not computed from the function's own pattern and source")
+        # a tree handed to the search (root=...) must be THE tree of the source: a pattern of several statements matches a
+        # run of statements of a body, so any pruned tree (first statement only, one scope only) loses candidates
+        for kw in it.keywords:
+            if kw.arg != "root":
+                continue
+            val = kw.value
+            if isinstance(val, ast.Name):
+                defs = [v for (_s, v) in bindings(fn).get(val.id, [])]
+                val = defs[0] if len(defs) == 1 and defs[0] is not None else None
+            whole = (isinstance(val, ast.Call) and norm(val.func).split(".")[-1] == "parse" and val.args
+                     and norm(val.args[0]) == fn.posparams[1] and len(val.args) == 1)
+            res.decide(bool(whole), "R13.4", fn.loc(loop), fn.fq, f"{name}: tree searched",
+                       "root= is the one parse of the function's own source" if whole else
+                       f"root={norm(kw.value)} is not (only) the parse of the whole source: candidates outside that tree, and multi-statement "
+                       "candidates reaching beyond it, are never examined")
         early = []
         for n in ast.walk(loop):
             if n is loop:
